@@ -74,6 +74,12 @@ func (x *run) judgeOutcome(op *Op, err error) *Diff {
 	if op.WantAny {
 		return nil
 	}
+	if op.WantFail {
+		if err == nil {
+			return df("outcome:should-have-failed:"+op.Kind, "%s succeeded", op.Name)
+		}
+		return nil
+	}
 	got := errCode(err)
 	if op.WantErr != "" {
 		if err == nil {
@@ -376,6 +382,20 @@ func (x *run) step(op *Op) {
 		}
 	}
 	if cfg.C03 && err == nil {
+		// objects derived by path while locked are kept; the first thing asked of them
+		// after the next unlock is their private key
+		if op.Kind == "derivepath" && !wasUnlocked && !w.WatchOnly && len(op.Returned) == 1 && op.Expected[0].Priv != nil && len(w.DerivedLocked) < 40 {
+			w.DerivedLocked = append(w.DerivedLocked, Retained{op.Returned[0], op.Expected[0]})
+		}
+		if op.Kind == "unlock" && w.Unlocked() {
+			for _, rt := range w.DerivedLocked {
+				if x.fail(w.CheckManaged(rt.MA, rt.E, "object derived by path while locked, after unlock", x.st)) {
+					return
+				}
+				x.st["c03-objects-derived-while-locked-asked-for-their-key-after-unlock"]++
+			}
+			w.DerivedLocked = nil
+		}
 		switch {
 		case op.Kind == "newaccount" || op.Kind == "importxpub" || op.Kind == "newscope":
 			x.fail(w.ResolveAccounts(x.st))
